@@ -2,5 +2,8 @@
 package prop
 
 import (
+	_ "verif/harness/prop/c01"
+	_ "verif/harness/prop/c07"
 	_ "verif/harness/prop/c10"
+	_ "verif/harness/prop/c18"
 )
